@@ -154,7 +154,9 @@ func (self *VM) spawnCore() *Core {
 	self.Cores.Lock.Lock()
 	defer self.Cores.Lock.Unlock()
 
-	ch := make(chan *value.VmInterrupt)
+	// Buffered: a core sends exactly one signal and must be able to finish even if nobody is
+	// waiting for it any more (`Wait` stops receiving after the first interrupt).
+	ch := make(chan *value.VmInterrupt, 1)
 	core := NewCore(
 		&self.Program.Functions,
 		hostcall,
